@@ -78,6 +78,14 @@ func (d DgramT) Recv() ([]byte, error) {
 
 var Debug = os.Getenv("VERIF_DEBUG") != ""
 
+// FragSpec is one fragment to send: Off/Len select the bytes, Total is the announced message length
+// (0 = the true length), Data overrides the bytes (nil = the true bytes).
+type FragSpec struct {
+	Off, Len int
+	Total    int
+	Data     []byte
+}
+
 // AlertError is returned when the other side sent an alert.
 type AlertError struct{ Level, Desc byte }
 
@@ -105,6 +113,9 @@ type Peer struct {
 	MsgSeq uint16
 	// MaxFrag > 0 fragments outgoing DTLCP handshake messages into pieces of that many body bytes.
 	MaxFrag int
+	// FragPlan, if set, decides for each outgoing DTLCP message how it is cut: it returns the list of
+	// fragments to send, in order (each in its own record and datagram). nil = send unfragmented.
+	FragPlan func(typ byte, body []byte) []FragSpec
 	// OneRecordPerDatagram sends every record in its own datagram (default: one message per datagram anyway).
 
 	Transcript []byte
@@ -304,6 +315,36 @@ func (p *Peer) SendMsg(typ byte, body []byte, skipTranscript bool) error {
 			enc = enc[n:]
 		}
 		return nil
+	}
+	if p.FragPlan != nil {
+		if plan := p.FragPlan(typ, body); plan != nil {
+			for _, f := range plan {
+				total := f.Total
+				if total == 0 {
+					total = len(body)
+				}
+				data := f.Data
+				if data == nil {
+					end := f.Off + f.Len
+					if end > len(body) {
+						// beyond the message: pad
+						data = append(append([]byte{}, body[min(f.Off, len(body)):]...), make([]byte, end-max(len(body), f.Off))...)
+					} else {
+						data = body[f.Off:end]
+					}
+				}
+				h := make([]byte, 12, 12+len(data))
+				h[0] = typ
+				h[1], h[2], h[3] = byte(total>>16), byte(total>>8), byte(total)
+				h[4], h[5] = byte(m.Seq>>8), byte(m.Seq)
+				h[6], h[7], h[8] = byte(f.Off>>16), byte(f.Off>>8), byte(f.Off)
+				h[9], h[10], h[11] = byte(len(data)>>16), byte(len(data)>>8), byte(len(data))
+				if err := p.WriteRecord(ref.RecHandshake, append(h, data...)); err != nil {
+					return err
+				}
+			}
+			return nil
+		}
 	}
 	if p.MaxFrag <= 0 || len(body) <= p.MaxFrag {
 		return p.WriteRecord(ref.RecHandshake, m.Encode(true))
